@@ -532,6 +532,40 @@ def rfcEncode : List UInt8 → List UInt8
     let n := a.toNat * 65536 + b.toNat * 256 + c.toNat
     rfcChar (n / 262144) :: rfcChar (n / 4096 % 64) :: rfcChar (n / 64 % 64) :: rfcChar (n % 64) :: rfcEncode rest
 
+/-! ## the client of the decoder inside the crate: `Deserialize for Image` (src/image.rs)
+
+`Base64Decoder::new(data_raw.as_bytes()).read_to_end(&mut data).map_err(..)?`, then the size check
+`data.len() == height * width * channels` and the pixels built from `data`. `read_to_end` keeps offering
+non-empty buffers until one gets `Ok(0)`; it is modelled as `readAll` over more 32-byte buffers than the text
+has symbols (the sizes std really uses are compared call by call by the `dec` requests of the harness). -/
+
+/-- `read_to_end` over an in-memory text: `none` = an error was returned -/
+def readToEnd (text : List UInt8) : Option (List UInt8) :=
+  match readAll (Dec.new ⟨text, [], 0⟩) (List.replicate (text.length + 1) 32) with
+  | .eof b => some b
+  | _ => none
+
+/-- RGBA bytes of the pixels `Deserialize for Image` builds from `data` (`channels` ∈ {1, 3, 4}) -/
+def imagePixels (channels : Nat) : List UInt8 → List UInt8
+  | [] => []
+  | v :: rest =>
+    if channels = 1 then v :: v :: v :: 255 :: imagePixels channels rest
+    else match channels, rest with
+      | 3, g :: b :: rest' => v :: g :: b :: 255 :: imagePixels channels rest'
+      | 4, g :: b :: a :: rest' => v :: g :: b :: a :: imagePixels channels rest'
+      | _, _ => []
+termination_by l => l.length
+decreasing_by all_goals simp_all <;> omega
+
+/-- the `data` / `channels` / `size` part of the image deserialiser: `none` = the document is rejected,
+    `some px` = accepted with these RGBA bytes -/
+def imageAccept (h w channels : Nat) (text : List UInt8) : Option (List UInt8) :=
+  match readToEnd text with
+  | none => none
+  | some data =>
+    if (channels = 1 ∨ channels = 3 ∨ channels = 4) ∧ data.length = h * w * channels
+    then some (imagePixels channels data) else none
+
 /-! ## line protocol -/
 open SurfModel.Proto
 
@@ -560,6 +594,7 @@ def showOutcome : Outcome → String
                                  arrived in the sink                      → `ok <hex>` | `ioerr <hex>` | `panic`
 * `dec <text> <sched> <tail> <sizes>`   model of one `read` per size       → trace joined by `,`
 * `all <text> <sched> <tail> <sizes>`   `readAll`                           → `eof <hex>` | `error <hex>` | …
+* `image <h> <w> <channels> <text>`  `imageAccept`: the crate's client of the decoder → `ok <rgba hex>` | `reject`
 * `spec <data>`                  `rfcEncode`                                → `<hex>`
 -/
 def handle : List String → String
@@ -589,6 +624,13 @@ def handle : List String → String
   | ["all", t, s, tl, z] =>
     match unhex t, natList? s, tl.toNat?, natList? z with
     | some t, some s, some tl, some z => showOutcome (readAll (Dec.new ⟨t, s, tl⟩) z)
+    | _, _, _, _ => "bad-op"
+  | ["image", h, w, ch, t] =>
+    match h.toNat?, w.toNat?, ch.toNat?, unhex t with
+    | some h, some w, some ch, some t =>
+      match imageAccept h w ch t with
+      | none => "reject"
+      | some px => "ok " ++ hex px
     | _, _, _, _ => "bad-op"
   | ["spec", d] =>
     match unhex d with
